@@ -42,7 +42,7 @@ maybe_into = Fn(F, "maybe_into", impl="BigInt", ret="res", props=["C19", "C05"],
                 ensures=[C("try_from", "<T as TryFromSpec<&num_bigint::BigInt>>::obeys_try_from_spec() ==> (match <T as TryFromSpec<&num_bigint::BigInt>>::try_from_spec(&self.bigint) { Ok(v) => res == Some(v), Err(_) => res is None })", ["C19"])])
 
 LOUD = [C("err_is_loud", "res is Err ==> final(report).msgs() > old(report).msgs()", ["C03"]),
-        C("ok_is_clean", "res is Ok ==> final(report).msgs() == old(report).msgs()", ["C03"]),
+        C("ok_is_clean", "res is Ok ==> final(report).msgs() == old(report).msgs() && final(report).errors() == old(report).errors()", ["C03"]),
         C("parents_kept", "final(report).parents() == old(report).parents()", ["C03"])]
 
 checked_into = Fn(F, "checked_into", impl="BigInt", ret="res", props=["C19", "C03"],
@@ -192,12 +192,17 @@ OP_IMPLS = [
     _opimpl("BitXor", "bitxor", "(&self.bigint ^ &rhs.bigint)", "core::ops::BitXor::bitxor(&self.bigint, &rhs.bigint)"),
 ]
 
+CMP_IMPLS = [
+    Impl(F, "std::cmp::PartialEq for BigInt", props=["C05"], fns={"eq": Fn(F, "eq", key="BigInt::eq", props=["C05"])}),
+    Impl(F, "std::cmp::PartialOrd for BigInt", props=["C05"], fns={"partial_cmp": Fn(F, "partial_cmp", key="BigInt::partial_cmp", props=["C05"])}),
+]
+
 ALL_FNS = [new, min_size, sign, size_or_min_size, set_bit, get_bit, maybe_into, checked_into, checked_into_nonzero_usize,
            checked_add, checked_sub, checked_mul, checked_div, checked_mod, checked_shl, checked_shr,
            slice_, checked_slice, concat]
 
 
-def items(mode, slot="util", only=None, with_ops=False):
+def items(mode, slot="util", only=None, with_ops=False, with_cmp=False):
     out = [t.in_slot(slot) for t in TYPES]
     for f in ALL_FNS:
         if only is not None and f.name not in only:
@@ -206,7 +211,7 @@ def items(mode, slot="util", only=None, with_ops=False):
         g.mode = mode
         out.append(g)
     import copy
-    for im in [from_impl] + (OP_IMPLS if (mode == "verify" or with_ops) else []):
+    for im in [from_impl] + (OP_IMPLS if (mode == "verify" or with_ops) else []) + (CMP_IMPLS if (mode == "verify" or with_cmp) else []):
         im2 = copy.copy(im)
         im2.slot = slot
         im2.mode = mode
